@@ -3,6 +3,7 @@
 mod c13;
 mod c15;
 mod c16;
+mod reader_mc;
 
 use mc_core::report::{parse_cli, write_out, Report};
 use mc_core::Value;
@@ -16,6 +17,7 @@ fn main() {
         let v: Value = mc_core::serde_json::from_str(&text).unwrap();
         let v = if v.get("replay").is_some() { v["replay"].clone() } else { v };
         let (violated, text) = match v["property"].as_str().unwrap_or("") {
+            "C02" | "C09" | "C14" if v["subject"] == "DeferredReader" => reader_mc::replay_file(&v),
             "C13" => c13::replay(&v),
             "C15" => c15::replay(&v),
             "C16" => c16::replay(&v),
@@ -33,6 +35,18 @@ fn main() {
         "C15" => {
             c15::run(cli.tier, &mut report);
             c15::RULE.into()
+        }
+        "C02" => {
+            reader_mc::run(reader_mc::Mode::C02, cli.tier, &mut report);
+            reader_mc::RULE_C02.into()
+        }
+        "C09" => {
+            reader_mc::run(reader_mc::Mode::C09, cli.tier, &mut report);
+            reader_mc::RULE_C02.into()
+        }
+        "C14" => {
+            reader_mc::run(reader_mc::Mode::C14, cli.tier, &mut report);
+            reader_mc::RULE_C02.into()
         }
         "C13" => {
             c13::run(cli.tier, &mut report);
